@@ -139,38 +139,39 @@ Qed.
 (** ---------- the whole sheet *)
 Section Sheet.
 Variable lang : Z.
+Variable yg : bool.
 Variable exs : list str.
 
-Notation tail_writes e := (tail_cells lang exs e).
+Notation tail_writes e := (tail_cells lang yg exs e).
 
 Definition head_ops (e : emission) : list op :=
   labels gen_jp_tmpl_asset_cells ++ [OW (cw (fst gen_jp_label_cell) (snd gen_jp_label_cell) (PStr (em_asset e)))].
 
 Lemma asset_ops_split e :
-  asset_ops lang exs e = (head_ops e ++ rows_ops gen_jp_first_row (em_rows lang exs e)) ++ map OW (tail_writes e).
+  asset_ops lang yg exs e = (head_ops e ++ rows_ops gen_jp_first_row (em_rows lang yg exs e)) ++ map OW (tail_writes e).
 Proof. unfold asset_ops, head_ops. rewrite <- !app_assoc. reflexivity. Qed.
 
 Lemma asset_writes e :
-  sw_writes (asset_sheet lang exs e) =
-  map (shift_by (rows_ops gen_jp_first_row (em_rows lang exs e))) (resolve_ops (head_ops e))
-  ++ rows_writes gen_jp_first_row (em_rows lang exs e) ++ tail_writes e.
+  sw_writes (asset_sheet lang yg exs e) =
+  map (shift_by (rows_ops gen_jp_first_row (em_rows lang yg exs e))) (resolve_ops (head_ops e))
+  ++ rows_writes gen_jp_first_row (em_rows lang yg exs e) ++ tail_writes e.
 Proof.
   unfold asset_sheet, sheet_of. cbn [sw_writes]. rewrite asset_ops_split, resolve_ops_app_writes, resolve_ops_app, resolve_rows.
   rewrite <- app_assoc. reflexivity.
 Qed.
 
-Lemma asset_count_ins e : count_ins (asset_ops lang exs e) = Z.of_nat (length (em_rows lang exs e)).
+Lemma asset_count_ins e : count_ins (asset_ops lang yg exs e) = Z.of_nat (length (em_rows lang yg exs e)).
 Proof.
   rewrite asset_ops_split, !count_ins_app, count_ins_writes, count_ins_rows. unfold head_ops, labels.
   rewrite count_ins_app. rewrite <- (map_map (fun rc => cw (fst rc) (snd rc) PLabel) OW), count_ins_writes. cbn [count_ins]. lia.
 Qed.
 
 Lemma tail_writes_in e dr col v : In (dr, col, v) gen_jp_asset_tail ->
-  In (cw (em_row_index lang exs e + dr) col (tail_value lang exs e (em_ctx lang exs e 0) v)) (tail_writes e).
+  In (cw (em_row_index lang yg exs e + dr) col (tail_value lang yg exs e (em_ctx lang yg exs e 0) v)) (tail_writes e).
 Proof. intros H. unfold tail_cells. apply in_map_iff. exists (dr, col, v). split; [reflexivity|exact H]. Qed.
 
 Lemma tail_writes_pos e w : In w (tail_writes e) ->
-  em_row_index lang exs e + 2 <= cw_row w /\ cw_row w < gen_jp_tmpl_asset_rows + Z.of_nat (length (em_rows lang exs e))
+  em_row_index lang yg exs e + 2 <= cw_row w /\ cw_row w < gen_jp_tmpl_asset_rows + Z.of_nat (length (em_rows lang yg exs e))
   /\ 0 <= cw_col w < gen_jp_tmpl_asset_cols /\ cw_col w < 1024.
 Proof.
   unfold tail_cells. intros H. apply in_map_iff in H. destruct H as [[[dr c] v] [E Hin]]. subst w. cbn [cw_row cw_col cw].
@@ -180,22 +181,22 @@ Qed.
 Lemma tail_writes_nodup e : NoDup (map wkey (tail_writes e)).
 Proof.
   unfold tail_cells. rewrite map_map.
-  rewrite (map_ext _ (fun x => em_row_index lang exs e * 1024 + tail_key x)).
-  - rewrite <- (map_map tail_key (fun k => em_row_index lang exs e * 1024 + k)).
+  rewrite (map_ext _ (fun x => em_row_index lang yg exs e * 1024 + tail_key x)).
+  - rewrite <- (map_map tail_key (fun k => em_row_index lang yg exs e * 1024 + k)).
     apply NoDup_map_shift; [intros; lia|]. apply nodupb_sound. exact jp_tail_nodup.
   - intros [[dr c] v]. unfold wkey, cell_key, tail_key. cbn [cw_row cw_col cw]. lia.
 Qed.
 
 (** the k-th row of the year's list: all its cells are what the sheet finally shows *)
 Lemma asset_row_cell e k r w :
-  nth_error (em_rows lang exs e) k = Some r -> In w (row_cells (gen_jp_first_row + Z.of_nat k) r) ->
-  cell_at (sw_writes (asset_sheet lang exs e)) (cw_row w) (cw_col w) = cw_val w.
+  nth_error (em_rows lang yg exs e) k = Some r -> In w (row_cells (gen_jp_first_row + Z.of_nat k) r) ->
+  cell_at (sw_writes (asset_sheet lang yg exs e)) (cw_row w) (cw_col w) = cw_val w.
 Proof.
   intros Hk Hw. rewrite asset_writes.
   destruct (rows_writes_nth _ gen_jp_first_row k r Hk) as [A [B [E HB]]]. rewrite E.
   rewrite <- !app_assoc, app_assoc.
   apply cell_at_block; [exact Hw|apply row_cells_nodup|].
-  assert (Hlen : (k < length (em_rows lang exs e))%nat) by (apply nth_error_Some; congruence).
+  assert (Hlen : (k < length (em_rows lang yg exs e))%nat) by (apply nth_error_Some; congruence).
   pose proof (row_cells_row _ _ _ Hw) as Hr. pose proof (jp_col_bounds _ (row_cells_col_in _ _ _ Hw)) as Hc.
   intros w' Hw' Ek. apply in_app_iff in Hw'. unfold wkey in Ek.
   destruct Hw' as [Hw'|Hw'].
@@ -205,7 +206,7 @@ Qed.
 
 (** a fixed cell (row_index + dr, col) finally shows the formula rendered for this sheet *)
 Lemma asset_tail_cell e dr col v : In (dr, col, v) gen_jp_asset_tail ->
-  cell_at (sw_writes (asset_sheet lang exs e)) (em_row_index lang exs e + dr) col = tail_value lang exs e (em_ctx lang exs e 0) v.
+  cell_at (sw_writes (asset_sheet lang yg exs e)) (em_row_index lang yg exs e + dr) col = tail_value lang yg exs e (em_ctx lang yg exs e 0) v.
 Proof.
   intros H. rewrite asset_writes, app_assoc.
   exact (cell_at_block_end _ _ _ (tail_writes_in e dr col v H) (tail_writes_nodup e)).
@@ -222,7 +223,7 @@ Proof.
   - rewrite count_ins_writes. replace (R + 1 + 0) with (R + 1) by lia. apply IH; lia.
 Qed.
 
-Lemma asset_sheet_ok e : sheet_ok (asset_sheet lang exs e) = true.
+Lemma asset_sheet_ok e : sheet_ok (asset_sheet lang yg exs e) = true.
 Proof.
   unfold asset_sheet. apply sheet_of_ok. rewrite asset_ops_split.
   pose proof jp_first_row_ok as F.
